@@ -7,6 +7,8 @@ import (
 	"go/types"
 	"strings"
 
+	"golang.org/x/tools/go/packages"
+
 	"dstverif/load"
 	"dstverif/schema"
 )
@@ -82,21 +84,21 @@ func (e *Env) RWho() {
 			}
 		}
 	}
-	allowed := map[string]bool{
-		load.PkgDecorator + ".(*Package).Save io/ioutil.WriteFile":             true,
-		load.PkgDecorator + ".(*Package).SaveWithResolver io/ioutil.WriteFile": true,
+	allowedFn := map[string]bool{
+		load.PkgDecorator + ".(*Package).Save":             true,
+		load.PkgDecorator + ".(*Package).SaveWithResolver": true,
 	}
-	seen := map[string]bool{}
+	nAllowed := 0
 	for _, s := range sites {
-		k := s.fn + " " + s.key
-		seen[k] = true
-		e.Run.Check("R-WHO", "file-system writer "+s.key+" referenced in "+s.fn, s.pos, allowed[k],
-			"only Package.Save/SaveWithResolver may reference a file-system mutator (ioutil.WriteFile, handed to save); any other site can write, create, rename or delete files")
+		ok := allowedFn[s.fn] && (s.key == "io/ioutil.WriteFile" || s.key == "os.WriteFile")
+		if ok {
+			nAllowed++
+		}
+		e.Run.Check("R-WHO", "file-system writer "+s.key+" referenced in "+s.fn, s.pos, ok,
+			"only Package.Save/SaveWithResolver may reference a file-system mutator (WriteFile, handed to save); any other site can write, create, rename or delete files")
 	}
-	// positive control
-	for k := range allowed {
-		e.Run.Check("R-WHO", "positive control: "+k, "", seen[k], "the legitimate writer reference must be found on every run (else the rule is blind)")
-	}
+	// positive control: the legitimate writer reference must be found on every run
+	e.Run.Check("R-WHO", "positive control: the sanctioned WriteFile reference is found", "", nAllowed >= 1, "no reference to WriteFile in Save/SaveWithResolver: the rule would be blind")
 	e.Run.Analysed("fs writer references", len(sites))
 }
 
@@ -171,7 +173,7 @@ func (e *Env) C20Save() {
 			return true
 		})
 	}
-	e.Run.Check("R-SAVE", "save has its two public callers", pos, nCallers == 2, fmt.Sprintf("%d call sites of save (Save, SaveWithResolver expected)", nCallers))
+	e.Run.Check("R-SAVE", "save is called", pos, nCallers >= 1, fmt.Sprintf("%d call sites of save", nCallers))
 
 	// restorer: r := NewRestorerWithImports(p.PkgPath, resolver)
 	var rObj types.Object
@@ -311,7 +313,8 @@ func (e *Env) C20Save() {
 		id, ok := x.(*ast.Ident)
 		return ok && c.ObjOf(id) == bufObj
 	}
-	for i, s := range blk.List[:widx] {
+	checked := checkedCalls(c, info, blk.List)
+	for i, s := range blk.List[:widx+1] {
 		if as, ok := s.(*ast.AssignStmt); ok && as.Tok == token.DEFINE && len(as.Lhs) == 1 {
 			if id, ok := as.Lhs[0].(*ast.Ident); ok && info.Defs[id] == bufObj {
 				if _, isAlloc := c.AllocOf(as.Rhs[0]); isAlloc {
@@ -332,39 +335,27 @@ func (e *Env) C20Save() {
 				}
 			}
 		}
-		if is, ok := s.(*ast.IfStmt); ok && is.Init != nil && is.Else == nil {
-			if as, ok := is.Init.(*ast.AssignStmt); ok && as.Tok == token.DEFINE && len(as.Lhs) == 1 && len(as.Rhs) == 1 {
-				if call, ok := as.Rhs[0].(*ast.CallExpr); ok && len(call.Args) == 2 {
-					fn := c.Callee(call)
-					isFprint := fn != nil && fn.Name() == "Fprint" && (schema.IsMethod(fn, load.PkgDecorator, "Restorer", "Fprint") || schema.IsMethod(fn, load.PkgDecorator, "FileRestorer", "Fprint"))
-					if !isFprint {
-						continue
-					}
-					recvOK := false
-					if se, ok := call.Fun.(*ast.SelectorExpr); ok {
-						if id, ok := se.X.(*ast.Ident); ok && c.ObjOf(id) == rObj {
-							recvOK = true
-						}
-					}
-					ok0 := isBuf(call.Args[0])
-					a1, ok1 := call.Args[1].(*ast.Ident)
-					errObj := info.Defs[as.Lhs[0].(*ast.Ident)]
-					condOK := false
-					if be, ok := is.Cond.(*ast.BinaryExpr); ok && be.Op == token.NEQ {
-						if id, ok := be.X.(*ast.Ident); ok && c.ObjOf(id) == errObj && info.Types[be.Y].IsNil() {
-							condOK = true
-						}
-					}
-					retOK := false
-					if len(is.Body.List) == 1 {
-						if rs, ok := is.Body.List[0].(*ast.ReturnStmt); ok && len(rs.Results) == 1 {
-							retOK = e.returnsErr(c, rs.Results[0], errObj)
-						}
-					}
-					printIdx = i
-					printOK = recvOK && ok0 && ok1 && c.ObjOf(a1) == fileObj && condOK && retOK
+	}
+	werr := false
+	for _, cc := range checked {
+		call := cc.call
+		fn := c.Callee(call)
+		if fn != nil && fn.Name() == "Fprint" && len(call.Args) == 2 && (schema.IsMethod(fn, load.PkgDecorator, "Restorer", "Fprint") || schema.IsMethod(fn, load.PkgDecorator, "FileRestorer", "Fprint")) && cc.end < widx+1 && cc.start <= widx {
+			recvOK := false
+			if se, ok := call.Fun.(*ast.SelectorExpr); ok {
+				if id, ok := se.X.(*ast.Ident); ok && c.ObjOf(id) == rObj {
+					recvOK = true
 				}
 			}
+			a1, ok1 := call.Args[1].(*ast.Ident)
+			if cc.start < widx {
+				printIdx = cc.start
+				printOK = recvOK && isBuf(call.Args[0]) && ok1 && c.ObjOf(a1) == fileObj && cc.returnsErr
+			}
+		}
+		if call == w.call {
+			werr = cc.returnsErr
+			widx = cc.start
 		}
 	}
 	e.Run.Check("R-SAVE", "buffer is fresh per file", wpos, bufIdx >= 0 && (printIdx < 0 || bufIdx < printIdx), "the print buffer must be allocated inside the loop body before printing (a shared buffer would prepend earlier files' contents)")
@@ -373,7 +364,10 @@ func (e *Env) C20Save() {
 	// between print and write the buffer is untouched
 	clean := true
 	if printIdx >= 0 {
-		for _, s := range blk.List[printIdx+1 : widx] {
+		for si, s := range blk.List[printIdx+1 : widx] {
+			if inChecked(checked, printIdx+1+si) {
+				continue
+			}
 			ast.Inspect(s, func(n ast.Node) bool {
 				if id, ok := n.(*ast.Ident); ok && c.ObjOf(id) == bufObj {
 					clean = false
@@ -383,20 +377,6 @@ func (e *Env) C20Save() {
 		}
 	}
 	e.Run.Check("R-SAVE", "buffer untouched between print and write", wpos, clean, "the buffer is used between the print and the write")
-	// the write's error is checked and returned
-	werr := false
-	if is, ok := wstmt.(*ast.IfStmt); ok && is.Init != nil {
-		if as, ok := is.Init.(*ast.AssignStmt); ok && len(as.Lhs) == 1 && len(as.Rhs) == 1 && as.Rhs[0] == ast.Expr(w.call) {
-			errObj := info.Defs[as.Lhs[0].(*ast.Ident)]
-			if be, ok := is.Cond.(*ast.BinaryExpr); ok && be.Op == token.NEQ {
-				if id, ok := be.X.(*ast.Ident); ok && c.ObjOf(id) == errObj && len(is.Body.List) == 1 {
-					if rs, ok := is.Body.List[0].(*ast.ReturnStmt); ok && len(rs.Results) == 1 {
-						werr = e.returnsErr(c, rs.Results[0], errObj)
-					}
-				}
-			}
-		}
-	}
 	e.Run.Check("R-SAVE", "write error is returned at once", wpos, werr, "the write's error must be checked and returned before the next file is touched")
 	// no branch statement in the loop body that could skip or repeat
 	bad := ""
@@ -445,8 +425,9 @@ func (e *Env) C20Save() {
 							continue // constructor composite literal uses key:value, not assignment
 						}
 						nW++
-						e.Run.Check("R-SAVE", "Filenames written in "+load.FuncName(f), e.Prog.Pos(t.Pos()), load.FuncName(f) == "(*Decorator).DecorateNode",
-							"the file-name table may only be filled while decorating")
+						okFn := load.FuncName(f) == "(*Decorator).DecorateNode" || e.calledOnlyFrom(pkg, f, "DecorateNode")
+						e.Run.Check("R-SAVE", "Filenames written in "+load.FuncName(f), e.Prog.Pos(t.Pos()), okFn,
+							"the file-name table may only be filled while decorating (in DecorateNode or a helper only it calls)")
 					}
 				}
 			}
@@ -509,6 +490,57 @@ func (e *Env) filenamesWriters(c *schema.Ctx) {
 		}
 		return true
 	})
+	// the stores may live in a helper that DecorateNode calls with (n, out): analyse that body with
+	// its parameters bound to the arguments
+	holder := fd
+	c.Subst = map[types.Object]ast.Expr{}
+	defer func() { c.Subst = nil }()
+	hasStore := func(f *ast.FuncDecl) bool {
+		found := false
+		ast.Inspect(f.Body, func(n ast.Node) bool {
+			if ix, ok := n.(*ast.IndexExpr); ok {
+				if se, ok := ix.X.(*ast.SelectorExpr); ok && se.Sel.Name == "Filenames" {
+					found = true
+				}
+			}
+			return true
+		})
+		return found
+	}
+	if !hasStore(fd) {
+		ast.Inspect(fd.Body, func(n ast.Node) bool {
+			call, ok := n.(*ast.CallExpr)
+			if !ok {
+				return true
+			}
+			fn := c.Callee(call)
+			if fn == nil || fn.Pkg() != pkg.Types {
+				return true
+			}
+			for _, h := range load.AllFuncDecls(pkg) {
+				if info.Defs[h.Name] == types.Object(fn) && h.Body != nil && hasStore(h) {
+					holder = h
+					i := 0
+					for _, p := range h.Type.Params.List {
+						for _, nm := range p.Names {
+							if i < len(call.Args) {
+								c.Subst[info.Defs[nm]] = call.Args[i]
+							}
+							i++
+						}
+					}
+				}
+			}
+			return true
+		})
+	}
+	isRoot := func(x ast.Expr, root types.Object) bool {
+		if root == nil {
+			return false
+		}
+		p, ok := c.Path(x, root)
+		return ok && p == ""
+	}
 	rootedAtCaseVar := func(e2 ast.Expr, want func(types.Object) bool) bool {
 		ok := false
 		ast.Inspect(e2, func(n ast.Node) bool {
@@ -521,7 +553,7 @@ func (e *Env) filenamesWriters(c *schema.Ctx) {
 		})
 		return ok
 	}
-	ast.Inspect(fd.Body, func(n ast.Node) bool {
+	ast.Inspect(holder.Body, func(n ast.Node) bool {
 		cc, ok := n.(*ast.CaseClause)
 		if !ok || len(cc.List) != 1 {
 			return true
@@ -551,7 +583,7 @@ func (e *Env) filenamesWriters(c *schema.Ctx) {
 						recvX := call.Fun.(*ast.SelectorExpr).X
 						if id, ok := recvX.(*ast.Ident); ok {
 							// a local holding the *token.File (e.g. `if tf := fset.File(pos); tf != nil`)
-							if def := singleDef(info, fd, id); def != nil {
+							if def := singleDef(info, holder, id); def != nil {
 								recvX = def
 							}
 						}
@@ -563,10 +595,8 @@ func (e *Env) filenamesWriters(c *schema.Ctx) {
 						"value stored is "+c.ExprStr(as.Rhs[0])+"; it must be Fset.File(<position of n>).Name() — the path the file was read from (Position().Filename follows //line directives and names another file)")
 					// key: out.(*dst.File)
 					keyOK := false
-					if ta, ok := ix.Index.(*ast.TypeAssertExpr); ok {
-						if id, ok := ta.X.(*ast.Ident); ok && c.ObjOf(id) == outObj && outObj != nil {
-							keyOK = true
-						}
+					if ta, ok := ix.Index.(*ast.TypeAssertExpr); ok && isRoot(ta.X, outObj) {
+						keyOK = true
 					}
 					e.Run.Check("R-SAVE", "file name recorded under the dst file decorated from it", pos, keyOK, "key is "+c.ExprStr(ix.Index))
 				case "Package":
@@ -649,4 +679,95 @@ func singleDef(info *types.Info, fd *ast.FuncDecl, id *ast.Ident) ast.Expr {
 		return def
 	}
 	return nil
+}
+
+type checkedCall struct {
+	call       *ast.CallExpr
+	start, end int // statement indices covered (end exclusive)
+	returnsErr bool
+}
+
+// checkedCalls recognises both spellings of an immediately checked call in a statement list:
+// `if err := f(); err != nil { return err }` and `err := f()` / `err = f()` followed by
+// `if err != nil { return err }`.
+func checkedCalls(c *schema.Ctx, info *types.Info, list []ast.Stmt) []checkedCall {
+	var out []checkedCall
+	errReturn := func(is *ast.IfStmt, errObj types.Object) bool {
+		be, ok := is.Cond.(*ast.BinaryExpr)
+		if !ok || be.Op != token.NEQ {
+			return false
+		}
+		id, ok := be.X.(*ast.Ident)
+		if !ok || c.ObjOf(id) != errObj || !info.Types[be.Y].IsNil() || len(is.Body.List) != 1 {
+			return false
+		}
+		rs, ok := is.Body.List[0].(*ast.ReturnStmt)
+		if !ok || len(rs.Results) != 1 {
+			return false
+		}
+		rid, ok := rs.Results[0].(*ast.Ident)
+		return ok && c.ObjOf(rid) == errObj
+	}
+	objOf := func(x ast.Expr) types.Object {
+		id, ok := x.(*ast.Ident)
+		if !ok {
+			return nil
+		}
+		if o := info.Defs[id]; o != nil {
+			return o
+		}
+		return info.Uses[id]
+	}
+	for i, st := range list {
+		switch s := st.(type) {
+		case *ast.IfStmt:
+			if as, ok := s.Init.(*ast.AssignStmt); ok && len(as.Lhs) == 1 && len(as.Rhs) == 1 {
+				if call, ok := as.Rhs[0].(*ast.CallExpr); ok {
+					out = append(out, checkedCall{call, i, i + 1, errReturn(s, objOf(as.Lhs[0]))})
+				}
+			}
+		case *ast.AssignStmt:
+			if len(s.Lhs) == 1 && len(s.Rhs) == 1 {
+				if call, ok := s.Rhs[0].(*ast.CallExpr); ok && i+1 < len(list) {
+					if is, ok := list[i+1].(*ast.IfStmt); ok && is.Init == nil {
+						out = append(out, checkedCall{call, i, i + 2, errReturn(is, objOf(s.Lhs[0]))})
+					}
+				}
+			}
+		}
+	}
+	return out
+}
+
+func inChecked(cs []checkedCall, idx int) bool {
+	for _, c := range cs {
+		if c.start <= idx && idx < c.end {
+			return true
+		}
+	}
+	return false
+}
+
+// calledOnlyFrom: every call of f in pkg sits in the function named caller.
+func (e *Env) calledOnlyFrom(pkg *packages.Package, f *ast.FuncDecl, caller string) bool {
+	info := pkg.TypesInfo
+	target := info.Defs[f.Name]
+	n, ok := 0, true
+	for _, g := range load.AllFuncDecls(pkg) {
+		if g.Body == nil {
+			continue
+		}
+		ast.Inspect(g.Body, func(nd ast.Node) bool {
+			if call, isCall := nd.(*ast.CallExpr); isCall {
+				if fn := calleeFunc(info, call); fn != nil && types.Object(fn) == target {
+					n++
+					if g.Name.Name != caller {
+						ok = false
+					}
+				}
+			}
+			return true
+		})
+	}
+	return ok && n >= 1
 }
